@@ -390,11 +390,8 @@ Proof.
     split; [|lia]. unfold svcb_view. rewrite E65, E0, Hlen, Em.
     rewrite pairs16_u16 by (apply sort_n_Forall, P1). now rewrite sort_n_idem. }
   destruct (key =? 1) eqn:E1.
-  { destruct (alpn_scan (S (length data)) data) as [he|] eqn:Ea; [|discriminate]. spi H.
-    destruct he.
-    - assert (Hn : lenN data = 0) by (apply Halpn; unfold pkey; cbn; lia).
-      apply lenN_0 in Hn. subst data. split; [exact H0|cbn; lia].
-    - split; [exact H0|lia]. }
+  { destruct (alpn_scan (S (length data)) data) as [he|] eqn:Ea; [|discriminate].
+    destruct he; [discriminate|]. spi H. split; [exact H0|lia]. }
   destruct (key =? 2) eqn:E2.
   { destruct (lenN data =? 0) eqn:En; [|discriminate]. spi H.
     assert (data = []) by (apply lenN_0; lia). subst data. split; [exact H0|lia]. }
@@ -1750,10 +1747,8 @@ Proof.
       + cbn [length] in Hev. replace (S (S (length r))) with (length r + 1 * 2)%nat in Hev by lia.
         now rewrite Nat.mod_add in Hev by lia. }
   destruct (key =? 1) eqn:E1.
-  { destruct (alpn_scan (S (length data)) data) as [he|] eqn:Ea; [|discriminate]. spi H. destruct he.
-    - split; [|intros [_ Hc]; specialize (Hc ltac:(lia)); discriminate].
-      intro E. subst data. cbn in Ea. discriminate.
-    - split; [intros _; split; [intro; lia|reflexivity]|reflexivity]. }
+  { destruct (alpn_scan (S (length data)) data) as [he|] eqn:Ea; [|discriminate]. destruct he; [discriminate|]. spi H.
+    split; [intros _; split; [intro; lia|reflexivity]|reflexivity]. }
   assert (b = data) by (apply (svcb_view_transparent key data b l H0); lia).
   split; [intros _; split; intro; lia|intros _; assumption].
 Qed.
@@ -2223,20 +2218,14 @@ Lemma opt_normalised_refuted :
 Proof. vm_compute. reflexivity. Qed.
 
 (* SVCB: a mandatory list that is not sorted is written back sorted; an alpn
-   value holding an empty id is written back EMPTY by the model (the Go pack()
-   of such a value returns an error instead, which the (code, packed value)
-   level of Model/Rdata.v cannot express), and what is re-packed decodes to a
-   different value (the reported length) *)
+   value holding an empty id is refused by the decoder (since fix 59da914 of
+   the library: before, it was accepted although neither the zone parser nor
+   pack() accept it, so the record could not be packed again) *)
 Lemma svcb_normalised_refuted :
   repack K_svcb [0; 0; 0; 4; 0; 4; 0; 1] = Some [0; 0; 0; 4; 0; 1; 0; 4] /\
-  decoded K_svcb [0; 1; 0; 1; 0] = Some [V_pairs [(1, [], 1)]] /\
-  repack K_svcb [0; 1; 0; 1; 0] = Some [0; 1; 0; 0] /\
-  reunpack K_svcb [0; 1; 0; 1; 0] = Some [V_pairs [(1, [], 0)]] /\
-  ~ alpn_len_ok (1, [], 1).
-Proof.
-  split; [vm_compute; reflexivity|]. split; [vm_compute; reflexivity|]. split; [vm_compute; reflexivity|].
-  split; [vm_compute; reflexivity|]. intro H. specialize (H eq_refl). discriminate H.
-Qed.
+  decoded K_svcb [0; 1; 0; 1; 0] = None /\
+  decoded K_svcb [0; 1; 0; 2; 1; 104] = Some [V_pairs [(1, [1; 104], 2)]].
+Proof. split; [vm_compute; reflexivity|]. split; vm_compute; reflexivity. Qed.
 
 (* a compression pointer inside RDATA is followed by the decoder; the packer
    (without a compression map) writes the name in full *)
@@ -2365,7 +2354,7 @@ Proof.
     destruct (pairs16_spec data (length data) (le_n _) Hw) as [P1 P2].
     rewrite len_flat_u16. unfold lenN in *. rewrite sort_n_length. lia. }
   destruct (key =? 1).
-  { destruct (alpn_scan _ _) as [he|]; [|discriminate]. spi H. destruct he; [cbn|]; lia. }
+  { destruct (alpn_scan _ _) as [he|]; [|discriminate]. destruct he; [discriminate|]. spi H. lia. }
   destruct (key =? 2). { destruct (lenN data =? 0); [|discriminate]. spi H. cbn. lia. }
   destruct (key =? 3). { destruct (lenN data =? 2); [|discriminate]. spi H. lia. }
   destruct (key =? 4). { destruct (_ || _); [discriminate|]. spi H. lia. }
